@@ -466,3 +466,34 @@ func TestMisc(t *testing.T) {
 		t.Logf("note: DecodeString returns a non-nil partial slice together with an error: %v %v", d, err)
 	}
 }
+
+// strings.ToValidUTF8 / (codes.Code).String as assumed in std.spec.
+func TestValidUTF8(t *testing.T) {
+	r := rng()
+	for i := 0; i < 20000; i++ {
+		b := make([]byte, r.Intn(12))
+		for j := range b {
+			if r.Intn(3) == 0 {
+				b[j] = byte(0x80 + r.Intn(0x80))
+			} else {
+				b[j] = byte(r.Intn(0x80))
+			}
+		}
+		s := string(b)
+		out := strings.ToValidUTF8(s, "\uFFFD")
+		if !utf8.ValidString(out) {
+			t.Fatalf("ToValidUTF8(%q) = %q is not valid", s, out)
+		}
+		if utf8.ValidString(s) && out != s {
+			t.Fatalf("ToValidUTF8 changed the valid string %q to %q", s, out)
+		}
+	}
+	for c := 0; c < 40; c++ {
+		if !utf8.ValidString(codes.Code(c).String()) {
+			t.Fatalf("codes.Code(%d).String() is not valid UTF-8", c)
+		}
+	}
+	if !utf8.ValidString("") || !utf8.ValidString("\uFFFD") || !utf8.ValidString("OK") {
+		t.Fatalf("literal axioms")
+	}
+}
